@@ -66,11 +66,11 @@ func c14Build(t *T, kind int, plan *faultPlan) *c14Stack {
 // resultFailed reports whether an execCOp result string denotes an error return.
 func resultFailed(o cOp, res string) bool {
 	switch o.H {
-	case "", "HOpen", "HTruncate", "HClose", "HStat":
+	case "", "HOpen", "HTruncate", "HClose", "HStat", "HChmod", "HSync":
 		return !strings.HasPrefix(res, "ok") && res != "nohandle"
-	case "HWrite":
+	case "HWrite", "HWriteAt", "HSeek":
 		return !strings.HasSuffix(res, " ok") && res != "nohandle"
-	case "HRead":
+	case "HRead", "HReadAt":
 		return !(strings.HasSuffix(res, " ok") || strings.HasSuffix(res, " EOF")) && res != "nohandle"
 	case "HReadDir":
 		return !(strings.HasSuffix(res, " ok") || strings.HasSuffix(res, " EOF")) && res != "nohandle"
@@ -126,7 +126,9 @@ func freshLookup(st *c14Stack, cands []string) string {
 func genC14Op(t *T, names []string, step int) cOp {
 	c := t.C
 	p := names[c.Draw(len(names))]
-	switch c.Weighted(4, 4, 3, 3, 2, 2, 2, 2, 2, 2, 3, 3, 2, 1, 1, 1) {
+	switch c.Weighted(4, 4, 3, 3, 2, 2, 2, 2, 2, 2, 3, 3, 2, 1, 1, 1, 2) {
+	case 16:
+		return cOp{H: "HChmod", Op: Op{Perm: []hackpadfs.FileMode{0600, 0640}[c.Draw(2)]}}
 	case 0:
 		return cOp{Op: Op{Kind: "Mkdir", P: p, Perm: 0755}}
 	case 1:
@@ -263,6 +265,30 @@ func runC14(t *T) {
 							}
 						}
 					}
+				}
+				if plan.fired > firedBefore && resultFailed(o, res) && (o.Kind == "Chmod" || o.Kind == "Chtimes" || o.H == "HChmod") && want != "" && !resultFailed(o, want) &&
+					!strings.HasPrefix(plan.firedAt, "Data") && !strings.HasPrefix(plan.firedAt, "ReadDirNames") && c.Chance(2, 3) { // (a failed lazy load is memoised by the handle's record: it may go on failing)
+					// what a caller does next: try the same thing again. The fault is gone, so the single-record update
+					// has to go through now, exactly as it did on the twin - not be skipped because the first attempt
+					// already "changed" something in memory
+					var res2 string
+					func() {
+						defer func() {
+							if r := recover(); r != nil {
+								if t.IsAbort(r) {
+									panic(r)
+								}
+								t.Fail("panic", "C14:panic:retry:"+opName(o), fmt.Sprintf("retry of %s after a store fault panicked: %v", o, r))
+							}
+						}()
+						res2 = execCOp(st.fs, hs, o)
+					}()
+					t.Logf("%d retry %s -> %s", i, o, res2)
+					a, b := storeView(st, cands), storeView(twin, cands)
+					if res2 != want || a != b {
+						t.Fail("retry-not-applied", "C14:"+opName(o)+":retry-after-fault", fmt.Sprintf("step %d %s on %s failed because of %s; tried again without a fault it returned %q (fault-free: %q) and the store holds\n%sfault-free it holds\n%s", i, o, st.name, plan.firedAt, res2, want, a, b))
+					}
+					t.Stat("c14:retried-after-fault")
 				}
 				if faulted {
 					if msg := freshLookup(st, cands); msg != "" {
